@@ -123,7 +123,13 @@ def build(out):
     pre, sec = PRELUDE.split("Section SmboGen.")
     out[idx] = pre + "\n".join(bodies) + "\n\nSection SmboGen." + sec
     out.append(POSTLUDE)
-    pins = {m: hashlib.sha1(source_text(path, meths[m]).encode()).hexdigest() for m in ("_remove_position",)}
+    known = {"__init__", "init_warm_start_smbo", "track_X_sample", "track_y_sample", "_sampling", "random_sampling", "_all_possible_pos",
+             "memory_warning", "init_pos", "iterate", "_remove_position", "evaluate", "evaluate_init", "_propose_location"}
+    if set(meths) != known:
+        raise Abort("SMBO defines methods %s, the translator knows %s" % (sorted(set(meths) - known), sorted(known - set(meths))))
+    # modelled by hand (Smbo.init_warm_start_smbo, the candidate set of the S-units, proposal_ok) or outside the model: pinned by digest
+    pins = {m: hashlib.sha1(source_text(path, meths[m]).encode()).hexdigest()
+            for m in ("_remove_position", "__init__", "init_warm_start_smbo", "_sampling", "random_sampling", "_all_possible_pos", "_propose_location")}
     return ["SMBO.track_X_sample.wrapper", "SMBO.track_y_sample.wrapper", "SMBO.evaluate", "SMBO.evaluate_init"], pins
 
 
@@ -147,7 +153,7 @@ def translate(write=True):
         want = json.load(open(PINS))
         for m, d in pins.items():
             if want.get(m) != d:
-                raise Abort("SMBO.%s changed: it is modelled by hand (Smbo.remove_position) and pinned by digest" % m)
+                raise Abort("SMBO.%s changed: it is modelled by hand (theories/Smbo.v, tied by the units of C17) and pinned by digest" % m)
         text = "\n".join(out) + "\n"
     except Abort as e:
         info.update(ok=False, error=str(e))
